@@ -22,10 +22,10 @@ CHECKS.update({
          "Trusts the harness model and porcupine v1.3.0; librocksdb itself is a prebuilt library and is only observed through the repository's cgo glue.","4/C15"),
  "C03": ("exploration","runtime oracle: brute-force longest-prefix-match model vs the real Rearranger output (predecessor search) and vs Reader.ResolverLocation/EcsLocation on four compiled configurations",
          "(a) Feeds seeded hostile subnet sets to the real Rearranger and searches its points exactly as the RocksDB driver does; (b) compiles the same kind of sets with M/8/% lines to CDB (combined and per-family prefix sets), RocksDB v1 and v2 and queries the real readers; both are compared, location and matched length, with a brute-force LPM oracle and an independent name->map model (exact before nearest wildcard, root wildcard, wildcard not applying to its apex, default map).",
-         "Trusts the harness LPM/name-map models. Client prefixes have zero host bits. One open finding (IPv6 subnets containing the IPv4-mapped block) is suppressed by predicate.","4/C03"),
+         "Trusts the harness LPM/name-map models. Client prefixes have zero host bits (bits beyond the source length are exercised by C10). A fifth configuration compiles the preprocessed text (range points as '!' lines). One open finding (IPv6 subnets containing the IPv4-mapped block) is suppressed by predicate.","4/C03"),
  "C01": ("exploration","runtime oracle: reference resolver on the structured file description vs responses of the real compile->store->serve path on three storage configurations",
          "Generates well-formed data files from a structured description (all line types, syntactic variety, zones/delegations/wildcards/locations/maps), compiles each with the real compilers to CDB, RocksDB v1 and v2, loads them into the real handler and sends generated queries from clients of every location; rcode, AA, answer, SOA-on-empty and referral NS+glue are compared strictly with a reference resolver that never sees codec output, the remaining sections for soundness.",
-         "Trusts the reference resolver (validated by triaging every disagreement) and miekg/dns packing for canonical rdata. Address answers are compared with max-answer >= candidates. DS/ANY/non-IN are left to C02/C13.","4/C01"),
+         "Trusts the reference resolver (validated by triaging every disagreement) and miekg/dns packing for canonical rdata. Address answers are compared with max-answer >= candidates. DS follows the code's documented special case (parent side answers at a delegation point, referral strictly below); ANY/non-IN are left to C02/C13. Replies truncated for the client's buffer are compared by header only (long names are asked over TCP).","4/C01"),
  "C02": ("exploration","differential runtime monitor: the same generated query sent to six storage/compiler configurations of the same generated file, full canonical responses compared",
          "Compiles each generated data file to CDB (1/16 workers, read with combined and per-family prefix sets) and to RocksDB v1/v2 through the builder and through batches with different sizes/parallelism, loads all six into real handlers and compares the complete canonical responses (every section, OPT/ECS and scope) for generated queries including DS, ANY, CH, EDNS variants, TCP, located and hostile ECS clients. No model is involved, so it also covers what C01's oracle leaves open.",
          "A defect shared by all configurations is invisible here (C01 covers that). Randomised address selection is neutralised with max-answer >= candidates; additional addresses compared by owner+family.","4/C02"),
@@ -34,7 +34,7 @@ CHECKS.update({
          "Go panics are recovered in-process; a fatal runtime error would abort the check (exit != 0). Only messages miekg/dns can pack are generated.","4/C13"),
  "C10": ("exploration","runtime oracle on the wire form of replies: prescribed OPT/ECS echo and scope from the LPM/name-map model, served records checked against the reference resolver for the location the subnet selects",
          "Sends generated queries without EDNS, with EDNS only and with ECS (family 1/2, source lengths around and across the declared subnet lengths, plus cookie/DO/size variation) to real handlers on CDB (combined and per-family prefix sets), RocksDB v1 and v2; the reply is re-read from its wire bytes and must carry OPT/ECS exactly as the query did, the prescribed scope, and the records of the location selected by the subnet, else the resolver.",
-         "Trusts the LPM/name-map model and the reference resolver. EDNS version 0, family-sized addresses with zero host bits.","4/C10"),
+         "Trusts the LPM/name-map model and the reference resolver. EDNS version 0; one in five non-octet source lengths has bits set beyond it (echoed address compared masked, as the DNS library packs it); two cache-enabled servers receive follow-up queries with other EDNS contents for the same question.","4/C10"),
  "C11": ("exploration","runtime monitor: per-response invariants over repeated identical queries from 16 goroutines, chi-square goodness-of-fit of selection counts (alarm below p=1e-9), race-detector child run",
          "For generated weighted address sets (weights incl. 0 and 2^32-1, locations, wildcard owners, NS/MX targets) every response of up to 4e5 repeated queries per configuration is checked for bound, distinctness, soundness, exact count min(max, positive-weight candidates), weight-0 exclusion and NOERROR; selection frequencies for max=1 and for additional-section addresses are tested against w_i/sum(w); the same workload runs under the Go race detector.",
          "Proportionality is statistical (false alarm < 1e-9 per configuration); the 2^-32 boundary draws of the implementation are tolerated once per configuration and re-run.","4/C11"),
@@ -46,7 +46,7 @@ CHECKS.update({
          "Lines the codec rejects are outside the property. Two open findings (explicit SOA serial 0; IPv4-mapped ipv6hint) are suppressed by predicate.","4/C09"),
  "C07": ("exploration","runtime oracle: raw dump of the compiled CDB/RocksDB vs the sequential line codec's records, across 11 compiler settings; watchdog + structural deadlock witness; race-detector child in the thorough tier",
          "Compiles files of ~50/5 000/70 000 records (hot keys across bucket cuts and batch boundaries) with the real compilers under CDB workers 1/4/16, RocksDB builder 1/4/16 CPUs, batches 7/1000/default x parallelism 1/4/0 and v1/v2 keys, dumps the result with the repository's own iterator / a raw CDB walk and compares key -> multiset of values with the sequential codec output; a rejected line must fail every setting; a compile that does not return is a violation only with two identical all-blocked goroutine dumps.",
-         "The reference is the repository's own line codec, as the statement defines it. Order of values under one key is not compared.","4/C07"),
+         "The reference is the repository's own line codec (and its accumulator for the derived subnet table), as the statement defines it. Order of values under one key is not compared. Input-delivery variants (short reads, reader fault, over-long line) may fail as a whole but must not succeed with records missing.","4/C07"),
  "C08": ("exploration","runtime oracle: raw dump after the real ApplyDiff vs raw dump of a fresh compile, over generated file chains; failure-atomicity probes with dump comparison",
          "Generates chains of data files (removals, duplicated lines, additions under existing keys, subnet churn), preprocesses each with the dnsrocks-preproc codec settings, renders the multiset line difference as -/+ lines in random order, applies it with the real RDB.ApplyDiff to the RocksDB compiled from the previous file (v1 and v2 keys) and compares the raw dump with a fresh compile of the next file; broken variants of every diff must fail and leave the dump unchanged.",
          "Trusts the harness's multiset line diff and the dump helper (repository's own cgo iterator).","4/C08"),
@@ -55,19 +55,19 @@ CHECKS.update({
          "Covers the produced interleavings only (listed as hook-point sequences). Two RocksDB partial-reload findings are suppressed by predicate on the history. Crash containment: scheduled runs in child processes.","4/C05"),
  "C12": ("exploration","differential runtime monitor (cache on vs off on the same query history) plus scheduled stale-insert interleavings at verif yield points decided by a generation-stamp rule; stress child under the race detector",
          "(a) two real handlers over the same database, cache on/off, receive the same generated query history with heavy key reuse across clients, types, EDNS variants and letter case; every response pair must be canonically equal. (b) with generation-stamped data and the cache on, a query is parked at each point up to the cache insertion while a full/partial reload completes (or is parked after the purge) and then resumed; queries started after the reload returned must not carry an older stamp, for positive, NXDOMAIN, referral and wildcard entries.",
-         "WRSTimeout 0. Equality is up to owner-name case and random address choice (max-answer >= candidates).","4/C12"),
+         "WRSTimeout 0. Equality is up to owner-name case and random address choice (max-answer >= candidates) and includes opcode and the RD/RA/AD/CD/Z bits (queries vary RD and CD).","4/C12"),
  "C06": ("fault_enumeration","online invariant monitor on an instrumented storage backend (open/use/close events, scripted reload faults) driven by exhaustive operation sequences up to a depth bound plus random longer ones; real backends in a child process where a crash is the verdict",
          "An instrumented DBI is wrapped with the verif constructors into db.DB and FBDNSDB and driven by ALL sequences over {acquire, use/release oldest|newest reader, 8 scripted reload outcomes incl. validation failures on new/same backend and reloads that outlive the timeout, unblock, shutdown} up to depth 4 (thorough 5), then by random longer sequences; every history is completed and the per-instance invariants (no use after close, no close during a call, close count, pinned/served stay open, everything closed exactly once) are checked. Real CDB/RocksDB backends run random histories in a child process.",
-         "The instrumented backend models a slow same-backend reload as a call in progress on the old backend (as a RocksDB catch-up is). Depth-bounded; timing of the 1 ms reload timeout decides which branch of db.Reload a blocked reload takes.","4/C06"),
+         "The instrumented backend models a slow same-backend reload as a call in progress on the old backend (as a RocksDB catch-up is). Depth-bounded; timing of the 1 ms reload timeout decides which branch of db.Reload a blocked reload takes; a separate sweep finishes new-backend reloads within 300 us of a 2 ms timeout so that both branches and their overlap occur.","4/C06"),
  "C14": ("exploration","Go race detector over randomised serve/reload/stats/watcher/shutdown stress in child processes, reports read from log files and deduplicated; crash and bounded-progress monitors",
          "Race-detector build, one child process per (backend, repeat): 16 query workers with the cache on, a reloader mixing full, partial (after a real ApplyDiff / file replacement) and failing reloads, a ReportBackendStats ticker, the fsnotify watcher with a ReloadChan consumer, and a shutdown performed while queries are parked after reader acquisition; zero race reports, no panic/fatal, all workers finish.",
-         "Only schedules the stress produced are covered (the evidence counts queries that overlapped a reload). librocksdb is uninstrumented: races inside it are invisible. FBDNSDB.ValidateDbKey is a start-up helper and not part of the workload.","4/C14"),
+         "Only schedules the stress produced are covered (the evidence counts queries that overlapped a reload). librocksdb is uninstrumented: races inside it are invisible. FBDNSDB.ValidateDbKey is a start-up helper and not part of the workload. Deadlock verdicts come only from a structural witness (every serving goroutine blocked on a sync lock in three dumps, no progress); a bare watchdog firing is inconclusive.","4/C14"),
  "C19": ("exploration","runtime monitors: recording Stats/Logger implementations related to the captured response per query; exact-sum check of concurrent counters under the race detector; three-valued timed oracle on real sliding windows",
          "(a) per query, counter deltas and logger calls received through the public Stats/Logger interfaces are related to the message actually written (query/type/location/cache/outcome counters; Log exactly once with the written message) over generated and hostile queries on every database layout and backend, cache on and off; (b) 16x1e5 concurrent increments with a concurrent exporter must sum exactly, race build; (c) real sliding windows with a 3 s lifetime (verif constructor) run scripted Add schedules mixing live and expired samples at cleaner ticks, each observation decided only when every sample is unambiguously live or gone by measured timestamps.",
          "(c) depends on the real clock (the code has no clock seam): ambiguous observations are skipped and counted. Bare SERVFAIL replies are treated as failure replies, not composed responses.","4/C19"),
  "C20": ("exploration","differential runtime monitor: replies of a real fbserver.Server over loopback UDP/TCP vs the bare handler in-process, per front-handler configuration, race-detector build",
          "Starts the real server (UDP+TCP) on a loopback port for combinations of backend, whoami domain, ANY refusal and max-answer, sends generated queries with a DNS client over UDP (no EDNS/512/1232/4096, with and without ECS) and TCP and compares every reply canonically with FBDNSDB.ServeDNS on the same database, remote address and max-answer; oversized answers must be truncated within the advertised size over UDP (actual datagram length) and complete over TCP; refused ANY must be the single synthesized HINFO; whoami queries answered by the whoami handler; a question-less message gets a failure rcode and the server survives; shutdown under load.",
-         "Loopback sockets only; address records compared by owner and type (weighted choice is random). TLS listeners are not exercised.","4/C20"),
+         "Loopback sockets only; address records compared by owner and type (weighted choice is random); header bits (opcode, RD/RA/AD/CD/Z) are part of the comparison. TLS listeners are not exercised.","4/C20"),
 })
 BUILT = set(CHECKS)
 ALL = [json.loads(l)["id"] for l in open("properties.jsonl")]
